@@ -272,12 +272,24 @@ def solver_options(method, fatol=None, maxiter=60):
 LADDER = (1.0 / 64, 1.0 / 16, 1.0 / 4, 1.0 / 2, 1.0)
 
 
-def solve_ladder(spec, ladder=LADDER, fatol=None, maxiter=60, perturb=None, reuse_system=False):
+CALL_STYLES = ('plain', 'strided-guess', 'readonly-guess', 'result-x-as-guess', 'shared-options', 'default-method', 'resolve-same-object')
+
+
+def solve_ladder(spec, ladder=LADDER, fatol=None, maxiter=60, perturb=None, reuse_system=False, call='plain'):
     """density continuation; yields (scale, prism, result) for every rung (result.success may be False).
-    reuse_system: one System object is built once and only its densities are edited from rung to rung (a parameter sweep)"""
+    reuse_system: one System object is built once and only its densities are edited from rung to rung (a parameter sweep)
+    call: the way solve() is called (all documented / equivalent):
+      strided-guess        the guess is a strided view of a longer buffer
+      readonly-guess       the guess array is write-protected (solve must not need to write into it)
+      result-x-as-guess    the previous rung's result.x object itself (not a copy) is the next guess
+      shared-options       ONE options dict object is handed to every solve of the ladder
+      default-method       method= is left out when it is the default 'krylov'
+      resolve-same-object  after a converged rung solve() is called again on the same PRISM object from its own solution;
+                           the second result is yielded as well"""
     guess = None
     method = spec.get('method', 'krylov')
     shared = None
+    shared_opts = solver_options(method, fatol, maxiter)
     for f in ladder:
         if reuse_system:
             if shared is None:
@@ -293,17 +305,38 @@ def solve_ladder(spec, ladder=LADDER, fatol=None, maxiter=60, perturb=None, reus
         g = np.zeros(n) if guess is None else guess
         if perturb is not None and guess is None:
             g = g + perturb
-        try:
-            res = quiet(pr.solve, guess=g, method=method, options=solver_options(method, fatol, maxiter))
-        except Exception as exc:   # solver blew up numerically (overflow -> nan -> LinAlgError inside scipy): not converged
-            if isinstance(exc, (ArithmeticError, ValueError)) or type(exc).__name__ in ('LinAlgError', 'NoConvergence'):
-                yield f, pr, None
-                return
-            raise
+        if call == 'strided-guess':
+            buf = np.full(2 * n, 7.5)
+            buf[0::2] = g
+            g = buf[0::2]
+        elif call == 'readonly-guess':
+            g = np.array(g)
+            g.setflags(write=False)
+        opts = shared_opts if call == 'shared-options' else solver_options(method, fatol, maxiter)
+        kw = dict(guess=g, options=opts)
+        if not (call == 'default-method' and method == 'krylov'):
+            kw['method'] = method
+
+        def run(kw):
+            try:
+                return quiet(pr.solve, **kw), False
+            except Exception as exc:   # solver blew up numerically (overflow -> nan -> LinAlgError inside scipy): not converged
+                if isinstance(exc, (ArithmeticError, ValueError)) or type(exc).__name__ in ('LinAlgError', 'NoConvergence'):
+                    return None, True
+                raise
+        res, blew = run(kw)
+        if blew:
+            yield f, pr, None
+            return
         yield f, pr, res
         if not res.success or not np.all(np.isfinite(res.x)):
             return
-        guess = np.array(res.x)
+        if call == 'resolve-same-object':
+            res2, blew = run(dict(kw, guess=res.x))
+            if not blew and res2 is not None and res2.success and np.all(np.isfinite(res2.x)):
+                yield f, pr, res2
+                res = res2
+        guess = res.x if call == 'result-x-as-guess' else np.array(res.x)
 
 
 # ----------------------------------------------------------------------------- independent reference inputs
